@@ -457,7 +457,7 @@ pub fn replay_cache(path: &str, t: &mut Trace) {
                         }
                     }
                 }
-                "pr" => {
+                "pr" | "prcl" => {
                     if let Some(c) = case.as_mut() {
                         if c.proc_enabled() {
                             c.step_proc(t);
